@@ -51,16 +51,35 @@ def run_schedule(sched, seed=0):
                 ev.append({"ev": "con" if raw[0] == 0x2E else "up", "id": raw[-1]})
 
             r = Routing(xknx, IndividualAddress("1.1.1"), cemi_cb, "10.0.0.1")
+            # every second schedule: another routing connection of the same process (its own XKNX) sends frames of its own meanwhile
+            r2 = Routing(XKNX(), IndividualAddress("1.1.2"), lambda raw: None, "10.0.0.1") if len(sched) % 2 else None
 
             def on_send(tr, data, addr):
+                if tr is not r.transport.transport:
+                    return
                 fr, _ = KNXIPFrame.from_knx(data)
                 if type(fr.body).__name__ == "RoutingIndication":
                     ev.append({"ev": "tx", "id": data[-1], "t": us(loop.time())})
 
             loop.on_send = on_send
             await r.connect()
+            if r2 is not None:
+                await r2.connect()
             random.random = drawn
             tasks = []
+
+            async def others():
+                c2 = CEMIFrame(code=CEMIMessageCode.L_DATA_REQ, data=CEMILData.init_from_telegram(
+                    Telegram(GroupAddress("7/7/7"), payload=GroupValueWrite(DPTArray((200,)))), src_addr=IndividualAddress("1.1.2")))
+                for gap in (0.0007, 0.0041, 0.009, 0.013, 0.021, 0.05, 0.11, 0.3):
+                    await asyncio.sleep(gap)
+                    try:
+                        await r2.send_cemi(c2)
+                    except Exception:  # noqa: BLE001 - the other connection's business
+                        pass
+
+            if r2 is not None:
+                tasks.append(loop.create_task(others()))
 
             async def sender(i):
                 cemi = CEMIFrame(code=CEMIMessageCode.L_DATA_REQ, data=CEMILData.init_from_telegram(
@@ -90,6 +109,8 @@ def run_schedule(sched, seed=0):
                 t.cancel()
             random.random = real_random
             await r.disconnect()
+            if r2 is not None:
+                await r2.disconnect()
 
         try:
             loop.run_until_complete(main())
